@@ -6,11 +6,13 @@
    swapped pair or a dropped class breaks these proofs.  End to end at value level: what
    the independent readers (JsonSpec.read_literal, XmlSpec.read_value / read_child) recover
    from what the model of the library's writers emits for an attribute value is the strict
-   content of that value, for every value kind and both values of force_types.  The
+   content of that value, for every value kind and both values of force_types; and at
+   record level for PROV-JSON: the object written for a record is read by JsonSpec.read_record
+   as that record (kind, identifier URI, every value of every attribute, in order).  The
    container level (JsonSpec.read (encode_doc d) = content d) is stated and decided per run
    by executing the extracted readers on the implementation's real output. *)
 From Coq Require Import String List Bool ZArith.
-From Prov Require Import Str Sexp Tables Spec TablesOK Nsm NsmProofs Values Record World Jtree Json JsonProofs JsonSpec Xml XmlProofs XmlSpec SpecProofs.
+From Prov Require Import Str Sexp Tables Spec TablesOK Nsm NsmProofs Values Record World Jtree Json JsonProofs JsonSpec Xml XmlProofs XmlSpec SpecProofs JsonRecProofs SpecRecProofs.
 Import ListNotations.
 Open Scope string_scope.
 
@@ -132,6 +134,22 @@ Theorem C10_xml_formal_time : forall ft scope fl l formals tm,
   = Some (L [A (spec_prov_uri ++ l); content_value (VTime tm)]).
 Proof. exact spec_xml_formal_time. Qed.
 (* every formal argument of every kind falls under C10_xml_ref or C10_xml_formal_time *)
+(* ---- record level, PROV-JSON.  attr_spec: the attribute's name resolves in the reader's prefix table to
+   the name's URI and is (is not) one of the kind's formal arguments exactly when the library treats it as
+   a reference / time; its values are ones the value-level theorems cover.  record_content: kind URI,
+   identifier, then for each attribute holding a value each (attribute URI, value content), in order. *)
+Theorem C10_json_record : forall ft t kind formals id r ic,
+  NoDup (member_names (rattrs r)) -> Forall (attr_spec ft t formals) (rattrs r) ->
+  id_content t id = Some ic -> kind <> "Membership" ->
+  JsonSpec.read_record ft t kind formals id (encode_record_obj r) = Some [record_content kind ic r].
+Proof. exact spec_json_record. Qed.
+Print Assumptions C10_json_record.
+
+Example C10_json_record_applies :
+  JsonSpec.read_record [] x_t "Usage" ["activity"; "entity"; "time"] "ex:u" (encode_record_obj x_r)
+  = Some [record_content "Usage" (A "http://e/u") x_r].
+Proof. exact spec_json_record_applies. Qed.
+
 Example C10_formals_covered :
   forallb (fun k => forallb (fun l =>
       if existsb (String.eqb l) spec_time_args
